@@ -229,40 +229,40 @@ Proof.
 Qed.
 
 Theorem ddepth_mut :
-  (forall t, nobits t = true -> wf_ty t = true -> DD t) /\
-  (forall vs, nobits_vars vs = true -> wf_vars_ty vs = true ->
+  (forall t, wf_ty t = true -> DD t) /\
+  (forall vs, wf_vars_ty vs = true ->
      forall k v bs, idx_ok vs = true -> wf_vars vs k v = true -> enc_vars spec_c vs k v = EOk bs ->
      exists i pb, bs = byte_of i :: pb /\ i < 256 /\
        forall known rest k0, bal (dtr (dec_vars vs i k0) known (pb ++ rest)) (ddepth_vars vs k v)).
 Proof.
   pose proof (proj1 roundtrip_mut) as RTall.
-  apply ty_variants_ind; unfold DD; cbn [nobits nobits_vars wf_ty wf_vars_ty].
-  - (* TUnit *) intros _ _ v bs _ _ known rest. destruct v; cbn [ddepth]; apply bal_nodepth; exact I.
-  - (* TBool *) intros _ _ v bs _ _ known rest. destruct v; cbn [ddepth]; apply bal_nodepth; cbn [dec]; nd.
-  - (* TPrim *) intros B _ _ v bs _ _ known rest. destruct v; cbn [ddepth]; apply bal_nodepth; cbn [dec]; (apply nodepth_bind; [apply nodepth_dec_prim|nd]).
-  - (* TCompact *) intros B _ _ v bs _ _ known rest. destruct v; cbn [ddepth]; apply bal_nodepth; cbn [dec]; (apply nodepth_bind; [apply nodepth_dec_compact|nd]).
-  - (* TNonZero *) intros B _ _ v bs _ _ known rest. destruct v; cbn [ddepth]; apply bal_nodepth; cbn [dec]; (apply nodepth_bind; [apply nodepth_dec_prim|nd]).
-  - (* TOption *) intros t IH Hb Ht [ | | | |v'| | | | | | ] bs; cbn [wf enc dec ddepth]; try discriminate.
+  apply ty_variants_ind; unfold DD; cbn [wf_ty wf_vars_ty].
+  - (* TUnit *) intros _ v bs _ _ known rest. destruct v; cbn [ddepth]; apply bal_nodepth; exact I.
+  - (* TBool *) intros _ v bs _ _ known rest. destruct v; cbn [ddepth]; apply bal_nodepth; cbn [dec]; nd.
+  - (* TPrim *) intros B _ v bs _ _ known rest. destruct v; cbn [ddepth]; apply bal_nodepth; cbn [dec]; (apply nodepth_bind; [apply nodepth_dec_prim|nd]).
+  - (* TCompact *) intros B _ v bs _ _ known rest. destruct v; cbn [ddepth]; apply bal_nodepth; cbn [dec]; (apply nodepth_bind; [apply nodepth_dec_compact|nd]).
+  - (* TNonZero *) intros B _ v bs _ _ known rest. destruct v; cbn [ddepth]; apply bal_nodepth; cbn [dec]; (apply nodepth_bind; [apply nodepth_dec_prim|nd]).
+  - (* TOption *) intros t IH Ht [ | | | |v'| | | | | | ] bs; cbn [wf enc dec ddepth]; try discriminate.
     + intros _ [= <-] known rest. cbn [app]. rewrite dtr_read_byte. cbn [Byte.to_N byte_of]. apply bal_nil.
     + intros Hv He known rest. apply eapp_ok in He as (x & y & [= <-] & Hy & ->). cbn [app].
       rewrite dtr_read_byte. cbn [Byte.to_N].
-      rewrite (dtr_bind_ok _ _ (dec t) _ known _ _ _ (RTall t Hb Ht v' y Hv Hy known rest)), dtr_ret, app_nil_r.
+      rewrite (dtr_bind_ok _ _ (dec t) _ known _ _ _ (RTall t Ht v' y Hv Hy known rest)), dtr_ret, app_nil_r.
       now apply IH.
-  - (* TResult *) intros t IHt e IHe Hb H. apply andb_prop in Hb as [Hbt Hbe]. apply andb_prop in H as [Ht He].
+  - (* TResult *) intros t IHt e IHe H. apply andb_prop in H as [Ht He].
     intros [ | | | | |v'|v'| | | | ] bs; cbn [wf enc dec ddepth]; try discriminate; intros Hv Hx known rest;
       apply eapp_ok in Hx as (x & y & [= <-] & Hy & ->); cbn [app]; rewrite dtr_read_byte; cbn [Byte.to_N].
-    + rewrite (dtr_bind_ok _ _ (dec t) _ known _ _ _ (RTall t Hbt Ht v' y Hv Hy known rest)), dtr_ret, app_nil_r. now apply IHt.
-    + rewrite (dtr_bind_ok _ _ (dec e) _ known _ _ _ (RTall e Hbe He v' y Hv Hy known rest)), dtr_ret, app_nil_r. now apply IHe.
-  - (* TOptionBool *) intros _ _ v bs _ _ known rest. destruct v; cbn [ddepth]; apply bal_nodepth; cbn [dec]; nd.
-  - (* TColl *) intros k sz t IH Hb H. apply andb_prop in H as [Ht Hsz]. apply N.leb_le in Hsz.
+    + rewrite (dtr_bind_ok _ _ (dec t) _ known _ _ _ (RTall t Ht v' y Hv Hy known rest)), dtr_ret, app_nil_r. now apply IHt.
+    + rewrite (dtr_bind_ok _ _ (dec e) _ known _ _ _ (RTall e He v' y Hv Hy known rest)), dtr_ret, app_nil_r. now apply IHe.
+  - (* TOptionBool *) intros _ v bs _ _ known rest. destruct v; cbn [ddepth]; apply bal_nodepth; cbn [dec]; nd.
+  - (* TColl *) intros k sz t IH H. apply andb_prop in H as [Ht Hsz]. apply N.leb_le in Hsz.
     intros [ | | | | | | |l| | | ] bs; cbn [wf enc]; try discriminate.
     intros Hw He known rest. apply andb_prop in Hw as [Hw Hsorted]. apply andb_prop in Hw as [Hl Hn].
     apply eapp_ok in He as (x & y & Hx & Hy & ->). rewrite (enc_count_spec _ Hn) in Hx. injection Hx as <-.
     cbn [dec]. rewrite <- app_assoc.
     rewrite (dtr_bind_ok _ _ (dec_compact 4) _ known _ _ _ (rt_compact 4 _ known (y ++ rest) okwidth4 (u32_fits _ Hn))).
     rewrite (nodepth_dtr _ _ known (nodepth_dec_compact 4)). cbn [app].
-    pose proof (dd_items t l y known rest (RTall t Hb Ht) (IH Hb Ht) Hl Hy) as Hitems.
-    pose proof (rt_items t l y known rest (RTall t Hb Ht) Hl Hy) as Hrun.
+    pose proof (dd_items t l y known rest (RTall t Ht) (IH Ht) Hl Hy) as Hitems.
+    pose proof (rt_items t l y known rest (RTall t Ht) Hl Hy) as Hrun.
     (* the wrapped element-wise body *)
     assert (Hgen: forall (fin : list val -> val),
               bal (dtr (items <- (emit HDescend ;;; l0 <- chunked_items sz (N.of_nat (length l)) (dec t) ;; emit HAscend ;;; Ret l0) ;; Ret (fin items)) known (y ++ rest))
@@ -294,12 +294,12 @@ Proof.
       apply bal_nodepth. apply nodepth_bind; [|nd]. apply nodepth_bind; [apply nodepth_bulk|nd].
     + (* CHeap *) destruct t; try (apply (Hgen (fun items => VSeq (sort_vals items)))).
       apply bal_nodepth. apply nodepth_bind; [|nd]. apply nodepth_bind; [apply nodepth_bulk|nd].
-  - (* TStr *) intros _ _ v bs _ _ known rest. destruct v; cbn [ddepth]; apply bal_nodepth; cbn [dec];
+  - (* TStr *) intros _ v bs _ _ known rest. destruct v; cbn [ddepth]; apply bal_nodepth; cbn [dec];
       (apply nodepth_bind; [apply nodepth_dec_compact|]; intros m; apply nodepth_bind; [apply nodepth_bulk|nd]).
-  - (* TArray *) intros n t IH Hb Ht [ | | | | | | |l| | | ] bs; cbn [wf enc]; try discriminate.
+  - (* TArray *) intros n t IH Ht [ | | | | | | |l| | | ] bs; cbn [wf enc]; try discriminate.
     intros Hw He known rest. apply andb_prop in Hw as [Hl Hn]. rewrite Hn in He. apply N.eqb_eq in Hn. subst n.
-    pose proof (dd_items t l bs known rest (RTall t Hb Ht) (IH Hb Ht) Hl He) as Hitems.
-    pose proof (rt_items t l bs known rest (RTall t Hb Ht) Hl He) as Hrun.
+    pose proof (dd_items t l bs known rest (RTall t Ht) (IH Ht) Hl He) as Hitems.
+    pose proof (rt_items t l bs known rest (RTall t Ht) Hl He) as Hrun.
     cbn [dec ddepth].
     assert (Hgen: bal (dtr (items <- rep (N.of_nat (length l)) (dec t) ;; Ret (VSeq items)) known (bs ++ rest)) (maxl (map (ddepth t) l))).
     { rewrite (dtr_bind_ok _ _ _ _ known _ _ _ Hrun), dtr_ret, app_nil_r. exact Hitems. }
@@ -308,37 +308,39 @@ Proof.
     assert (Hz: maxl (map (ddepth (TPrim B)) l) = 0).
     { clear. induction l as [|v l IHl]; cbn [map maxl fold_right]; [reflexivity|]. fold (maxl (map (ddepth (TPrim B)) l)). rewrite IHl. destruct v; reflexivity. }
     rewrite Hz. apply bal_nodepth. nd.
-  - (* TPair *) intros a IHa b IHb Hb H. apply andb_prop in Hb as [Hba Hbb]. apply andb_prop in H as [Ha Hb'].
+  - (* TPair *) intros a IHa b IHb H. apply andb_prop in H as [Ha Hb'].
     intros [ | | | | | | | |x y| | ] bs; cbn [wf enc]; try discriminate.
     intros Hw He known rest. apply andb_prop in Hw as [Hx Hy]. apply eapp_ok in He as (bx & by' & Ex & Ey & ->).
     cbn [dec ddepth]. rewrite <- app_assoc.
-    rewrite (dtr_bind_ok _ _ (dec a) _ known _ _ _ (RTall a Hba Ha x bx Hx Ex known (by' ++ rest))).
-    rewrite (dtr_bind_ok _ _ (dec b) _ known _ _ _ (RTall b Hbb Hb' y by' Hy Ey known rest)), dtr_ret, app_nil_r.
+    rewrite (dtr_bind_ok _ _ (dec a) _ known _ _ _ (RTall a Ha x bx Hx Ex known (by' ++ rest))).
+    rewrite (dtr_bind_ok _ _ (dec b) _ known _ _ _ (RTall b Hb' y by' Hy Ey known rest)), dtr_ret, app_nil_r.
     apply bal_app; [now apply IHa|now apply IHb].
-  - (* TBox *) intros sz t IH Hb Ht v bs Hw He known rest. cbn [wf enc dec ddepth] in *.
+  - (* TBox *) intros sz t IH Ht v bs Hw He known rest. cbn [wf enc dec ddepth] in *.
     rewrite !dtr_emit. cbn [dpi filter is_depth app].
-    rewrite (dtr_bind_ok _ _ (dec t) _ known _ _ _ (RTall t Hb Ht v bs Hw He known rest)), dtr_emit, dtr_ret, app_nil_r.
+    rewrite (dtr_bind_ok _ _ (dec t) _ known _ _ _ (RTall t Ht v bs Hw He known rest)), dtr_emit, dtr_ret, app_nil_r.
     change (EHook HDescend :: ?x ++ dpi [EHook HAscend]) with ([EHook HDescend] ++ x ++ [EHook HAscend]).
     apply bal_wrap. now apply IH.
-  - (* TDuration *) intros _ _ v bs _ _ known rest. destruct v; cbn [ddepth]; apply bal_nodepth; cbn [dec]; nd.
-  - (* TBits *) intros B msb Hb. discriminate.
-  - (* TEnum *) intros vs IH Hb Hvs [ | | | | | | | | | |k v'] bs; cbn [wf enc]; try discriminate.
+  - (* TDuration *) intros _ v bs _ _ known rest. destruct v; cbn [ddepth]; apply bal_nodepth; cbn [dec]; nd.
+  - (* TBits *) intros B msb _ v bs _ _ known rest. destruct v; cbn [ddepth]; apply bal_nodepth; cbn [dec];
+      (apply nodepth_bind; [apply nodepth_dec_compact|]; intros bits; destruct (_ <? _); [exact I|];
+       apply nodepth_bind; [apply nodepth_bulk|]; intros bb; cbv zeta; destruct (_ <? _); exact I).
+  - (* TEnum *) intros vs IH Hvs [ | | | | | | | | | |k v'] bs; cbn [wf enc]; try discriminate.
     intros Hw He known rest. apply andb_prop in Hw as [Hidx Hw].
-    destruct (IH Hb Hvs k v' bs Hidx Hw He) as (i & pb & -> & Hi & Hdec).
+    destruct (IH Hvs k v' bs Hidx Hw He) as (i & pb & -> & Hi & Hdec).
     cbn [dec app ddepth]. rewrite dtr_read_byte.
     rewrite to_byte_of, N.mod_small by exact Hi. apply (Hdec known rest 0%nat).
-  - (* VsNil *) intros _ _ k v bs _ H. discriminate.
-  - (* VsCons *) intros idx t IHt vs IHvs Hb H. apply andb_prop in Hb as [Hbt Hbvs]. apply andb_prop in H as [Ht Hvs].
+  - (* VsNil *) intros _ k v bs _ H. discriminate.
+  - (* VsCons *) intros idx t IHt vs IHvs H. apply andb_prop in H as [Ht Hvs].
     intros [|k] v bs Hidx Hw He; cbn [idx_ok wf_vars enc_vars ddepth_vars] in *.
     + apply andb_prop in Hidx as [Hidx _]. apply andb_prop in Hidx as [Hlt _]. rewrite Hlt in He.
       apply eapp_ok in He as (x & y & [= <-] & Hy & ->). apply N.ltb_lt in Hlt.
       exists idx, y. split; [reflexivity|split; [exact Hlt|]].
       intros known rest k0. cbn [dec_vars]. rewrite N.mod_small by exact Hlt. rewrite N.eqb_refl.
-      rewrite (dtr_bind_ok _ _ (dec t) _ known _ _ _ (RTall t Hbt Ht v y Hw Hy known rest)), dtr_ret, app_nil_r. now apply IHt.
+      rewrite (dtr_bind_ok _ _ (dec t) _ known _ _ _ (RTall t Ht v y Hw Hy known rest)), dtr_ret, app_nil_r. now apply IHt.
     + apply andb_prop in Hidx as [Hidx Hrest]. apply andb_prop in Hidx as [Hlt Hnotin].
-      destruct (IHvs Hbvs Hvs k v bs Hrest Hw He) as (i & pb & -> & Hi & Hdec).
+      destruct (IHvs Hvs k v bs Hrest Hw He) as (i & pb & -> & Hi & Hdec).
       (* the index of a later variant differs from idx *)
-      destruct (proj2 roundtrip_mut vs Hbvs Hvs k v (byte_of i :: pb) Hrest Hw He) as (i' & pb' & Heq & Hi' & Hin & _).
+      destruct (proj2 roundtrip_mut vs Hvs k v (byte_of i :: pb) Hrest Hw He) as (i' & pb' & Heq & Hi' & Hin & _).
       injection Heq as Hbi Hpb. assert (i = i').
       { apply (f_equal Byte.to_N) in Hbi. rewrite !to_byte_of, !N.mod_small in Hbi by assumption. exact Hbi. }
       subst i'. exists i, pb. split; [reflexivity|split; [exact Hi|]].
@@ -348,23 +350,23 @@ Qed.
 
 (* the nesting of the trace of decoding an encoding is the nesting depth of the value *)
 Theorem trace_depth_is_value_depth t v bs known rest :
-  nobits t = true -> wf_ty t = true -> wf t v = true -> enc_spec t v = EOk bs ->
+  wf_ty t = true -> wf t v = true -> enc_spec t v = EOk bs ->
   max_depth 0 (snd (runt (dec t) known (bs ++ rest))) = ddepth t v.
 Proof.
-  intros Hb Ht Hw He. pose proof (proj1 ddepth_mut t Hb Ht v bs Hw He known rest) as H.
+  intros Ht Hw He. pose proof (proj1 ddepth_mut t Ht v bs Hw He known rest) as H.
   apply bal_dpi in H. destruct (H 0) as [H1 _]. rewrite H1. lia.
 Qed.
 
 (* hence: depth-limited decoding of an encoding succeeds exactly when L >= the value's depth *)
 Theorem depth_limit_on_encodings t v bs known rest L :
-  nobits t = true -> wf_ty t = true -> wf t v = true -> enc_spec t v = EOk bs ->
+  wf_ty t = true -> wf t v = true -> enc_spec t v = EOk bs ->
   if ddepth t v <=? L
   then exists d, run (depthmon L) (dec t) known (bs ++ rest) 0 = ROk (canon t v) rest d
   else exists d, run (depthmon L) (dec t) known (bs ++ rest) 0 = RErr d.
 Proof.
-  intros Hb Ht Hw He. pose proof (depth_limit_exact _ (dec t) known (bs ++ rest) L) as H.
-  pose proof (trace_depth_is_value_depth t v bs known rest Hb Ht Hw He) as Hd.
-  pose proof (roundtrip t v bs known rest Hb Ht Hw He) as Hr. rewrite <- runt_fst in Hr.
+  intros Ht Hw He. pose proof (depth_limit_exact _ (dec t) known (bs ++ rest) L) as H.
+  pose proof (trace_depth_is_value_depth t v bs known rest Ht Hw He) as Hd.
+  pose proof (roundtrip t v bs known rest Ht Hw He) as Hr. rewrite <- runt_fst in Hr.
   destruct (runt (dec t) known (bs ++ rest)) as [o evs]. cbn [fst snd] in *. subst o. rewrite Hd in H.
   destruct (ddepth t v <=? L); exact H.
 Qed.
